@@ -746,6 +746,13 @@ off64_t _GD_SampIndSize(int dirfd, struct gd_raw_file_* file,
   /* find the last record */
   last_rec = _GD_GetNRec(&f, size) - 1;
 
+  /* no records: the field is empty */
+  if (last_rec == -1) {
+    fclose(f.fp);
+    dreturn("%i", 0);
+    return 0;
+  }
+
   /* seek to this record */
   if (fseeko64(f.fp, last_rec * size, SEEK_SET)) {
     fclose(f.fp);
